@@ -256,6 +256,10 @@ pub fn scenario_set(tier: Tier, with_loads: bool) -> Vec<Scenario> {
     for addrs in [vec![2u8], vec![1, 4]] {
         v.push(Scenario { addrs, hsa: 6, gap: 1, baud: 1, slot_bits: 100, ttr: None, divs: vec![16], phases: vec![0, 1, 2], deaf: false, loads: vec![Load::None], late: vec![], responders: vec![(40, 0)], origin: 0, repoll: 0, endurance: tier.pick(8_000, 20_000) });
     }
+    // ... and a station that goes online only after the ring {1,4} has run for some 10^5 rotations: it must
+    // still be admitted (GAP maintenance of an OLD ring; found by a seeded change whose pause counter got
+    // stuck after 2^16 token visits)
+    v.push(Scenario { addrs: vec![1, 3, 4], hsa: 6, gap: 1, baud: 1, slot_bits: 100, ttr: None, divs: vec![16], phases: vec![0, 1, 2], deaf: false, loads: vec![Load::None], late: vec![(1, tier.pick(400_000, 800_000))], responders: vec![(40, 0)], origin: 0, repoll: 0, endurance: 1 });
     let mut seen = std::collections::HashSet::new();
     v.retain(|sc| seen.insert(sc.to_json().to_string()));
     v
